@@ -2,7 +2,7 @@
 """Regenerate reference/enforcement_sites.json from the current tree.  Run by
 hand only, after the counts were confirmed by reading; the checks never write
 this file."""
-import json, os, sys
+import ast, json, os, sys
 HERE = os.path.dirname(os.path.dirname(os.path.abspath(__file__)))
 sys.path.insert(0, HERE)
 from stonelint.model import Program
@@ -90,7 +90,12 @@ ft = _func_table({name: m.tree for name, m in pm0.modules.items()})
 json.dump({'note': 'qualified names of the top-level functions and methods at /repo HEAD; a '
                    'function outside this list is new and is inlined into its callers before '
                    'the rules run (stonelint/inline.py)',
-           'functions': sorted(ft)}, open(os.path.join(HERE, 'reference', 'functions.json'), 'w'),
+           'functions': sorted(ft),
+           'constants': {name: sorted(st.targets[0].id for st in m.tree.body
+                                      if isinstance(st, ast.Assign) and len(st.targets) == 1 and
+                                      isinstance(st.targets[0], ast.Name))
+                         for name, m in pm0.modules.items()}},
+          open(os.path.join(HERE, 'reference', 'functions.json'), 'w'),
           indent=0)
 print(len(ft), 'functions in the inventory')
 
